@@ -3,7 +3,7 @@
 From ToughV Require Import Model.Base Model.Pct Model.Json Model.CJson Model.ClientRun Model.TName
      Model.Glob Model.Deleg Model.Keys Model.Editor.
 From ToughV Require Import Model.RootCmd.
-From ToughV Require Import Model.Http.
+From ToughV Require Import Model.Http Model.Schema.
 
 Definition run_C16 (op : N) (a : list tree) : tree :=
   match op, a with
@@ -114,6 +114,31 @@ Definition run_C18 (op : N) (a : list tree) : tree :=
        | _ => T [L 999]
        end.
 
+(* op 0: [role, original signed value, envelope, key index, key id, style] ->
+         [parsed, accepted, [] | [canonical form of the retained signed part]]
+   op 3: [role, document] -> [well_covered] *)
+Definition sig_placeholder : bytes :=
+  [53;51;52;57;52;55;52;101;52;49;53;52;53;53;53;50;52;53].
+Definition run_C12 (op : N) (a : list tree) : tree :=
+  if op =? 0 then
+    match a with
+    | rt :: orig :: env :: _ :: keyid :: _ =>
+        match canon (reader_view (jv_of_tree 64 orig)) with
+        | Some b =>
+            let v := offer (nth (N.to_nat (t_N rt)) role_schemas SAny) (t_bytes keyid) sig_placeholder b
+                           (jv_of_tree 64 env) in
+            T [of_bool (v_parsed v); of_bool (v_accepted v); of_opt of_bytes (v_content v)]
+        | None => T [L 997]
+        end
+    | _ => T [L 999]
+    end
+  else
+    match a with
+    | rt :: doc :: _ =>
+        T [of_bool (well_covered (nth (N.to_nat (t_N rt)) role_schemas SAny) (reader_view (jv_of_tree 64 doc)))]
+    | _ => T [L 999]
+    end.
+
 Definition run_case (t : tree) : tree :=
   match t with
   | T (L p :: L op :: args) =>
@@ -122,6 +147,7 @@ Definition run_case (t : tree) : tree :=
       else if p =? 8 then run_C08 op args
       else if p =? 7 then run_C07 op args
       else if p =? 13 then run_C13 op args
+      else if p =? 12 then run_C12 op args
       else if p =? 17 then run_C17 op args
       else if p =? 6 then run_client op args
       else if p =? 20 then run_C20 op args
